@@ -38,14 +38,17 @@ CONFIGS = {
 PRELUDE = st.SCHEME_PRELUDE + r"""
 (define (cons* x . r) (if (null? r) x (cons x (apply cons* r))))
 (define (to-text writer x) (let ((o (open-output-string))) (writer x o) (get-output-string o)))
-(define (first-diff x y d)
+(define (first-diff-aux x y d skip-flo)
   (cond ((> d 60) #f)
-        ((and (pair? x) (pair? y)) (or (first-diff (car x) (car y) (+ d 1)) (first-diff (cdr x) (cdr y) (+ d 1))))
+        ((and (pair? x) (pair? y)) (or (first-diff-aux (car x) (car y) (+ d 1) skip-flo) (first-diff-aux (cdr x) (cdr y) (+ d 1) skip-flo)))
         ((and (vector? x) (vector? y) (= (vector-length x) (vector-length y)))
-         (let loop ((i 0)) (if (= i (vector-length x)) #f (or (first-diff (vector-ref x i) (vector-ref y i) (+ d 1)) (loop (+ i 1))))))
+         (let loop ((i 0)) (if (= i (vector-length x)) #f (or (first-diff-aux (vector-ref x i) (vector-ref y i) (+ d 1) skip-flo) (loop (+ i 1))))))
         ((equal? x y) #f)
+        ((and skip-flo (real? x) (inexact? x) (real? y) (inexact? y)) #f)
         (else (list (cond ((and (real? x) (inexact? x)) 'flonum) ((number? x) 'number) ((char? x) 'char) ((string? x) 'string) ((symbol? x) 'symbol) (else 'other))
                     x y (if (and (real? x) (inexact? x) (= x x) (< (abs x) +inf.0)) (exact x) 'na)))))
+; a difference that is not one between two flonums comes first (a mis-read flonum -- recorded finding F10 -- must not hide another leaf)
+(define (first-diff x y d) (or (first-diff-aux x y d #t) (first-diff-aux x y d #f)))
 (define (try-read reader p) (call/cc (lambda (k) (with-exception-handler (lambda (e) (k (list 'read-error))) (lambda () (list 'ok (reader p)))))))
 """
 
